@@ -222,12 +222,21 @@ def _cpr_loop1(v):
     yield "nothing-read-yet-means-zero", implies(v.i == i1, v.x == 0)
 
 
+def _xcheck_char_predicates():
+    from pyvc.text import xcheck_char_predicates
+
+    return ("single-character-str-predicates-agree-with-cpython", *xcheck_char_predicates())
+
+
 @contract(ES + "KeyqueueTrie.read_cursor_position", property="C05", replayable=False)
 class read_cursor_position:
     self_shape = TRIE0
     params = dict(keys=CODES, more_available=Bool)
     result = Opt(Tup(Tup(Const("cursor position"), Int, Int), CODES))
     raises = (_esc.MoreInputRequired,)
+    # a digit of a report is an ASCII digit, 48 <= k <= 57 (`is_digit`); a body that classifies bytes with str
+    # predicates (chr(k).isdigit() / .isnumeric() / ...) is verified against CPython's exact answers for 0..255
+    static_checks = [_xcheck_char_predicates]
 
     def ensures(old, s, a, result):
         p, q, wellformed, incomplete = cpr_shape(a.keys)
@@ -982,3 +991,173 @@ class get_available_raw_input:
 
     # loop 0 drains the resize pipe: no termination claim (how long the pipe stays readable is the OS's business)
     loops = {0: Loop(invariant=lambda v: True)}
+
+
+# --------------------------------------------------------------------------------------------- Screen.get_input
+#
+# The synchronous path (no event loop): nothing but get_input itself can time out an incomplete sequence.
+# The statement's clause "when the timeout does expire the pending bytes are decoded as they stand rather than
+# lost" becomes the FLUSH DECISION: get_input may return holding pending codes only when its last action was a
+# completion wait that reported more input ready (the next call reads it at once); otherwise - whatever keys the
+# read already produced - the pending codes were decoded with wait_for_more=False in THIS call.
+# Callees are known by contract only; a ghost call log (`c05_gi_calls`, filled by `logged`) records, in order, which
+# of _wait_for_input_ready / get_available_raw_input / parse_input were called, with what, what they answered and
+# how many codes were pending afterwards.
+# Dropped: the content of the decoded events (opaque `KeyEvent`s), which branch the resize throttling takes on them
+# (`abstract_contains`), logging, real time (a wait is an oracle answering "ready" or "not ready"; a timeout is an
+# integer in some unit of which only the identity matters: which of the three waits was used).
+TIME = Int(0, 1000)
+SCREEN_GI = Obj(_rdb.Screen, dict(
+    _started=Bool, _next_timeout=Opt(TIME), complete_wait=TIME, resize_wait=TIME, prev_input_resize=Int(0, 2),
+    _partial_codes=CODES, _resized=Bool, _input_timeout=Opt(Opaque("InputAlarm")), _resize_pipe_rd=Opaque("ResizePipe")))
+
+
+def logged(name, ens):
+    """`ensures_callee` form of `ens` (see as_assumption) that also appends the call to the ghost log of get_input."""
+
+    def g(old, s, a, result):
+        st = cur()
+        st.ghost["c05_assuming"] = st.ghost.get("c05_assuming", 0) + 1
+        try:
+            out = list(Contract._gen(ens(old, s, a, result)))
+        finally:
+            st.ghost["c05_assuming"] -= 1
+        entry = dict(name=name, a=a, result=result, pending_after=klen(s._partial_codes))
+        if name == "parse":
+            # lengths AT THE TIME of the call (the caller goes on to extend the very lists it was handed)
+            entry["n_decoded"], entry["n_raw"] = klen(val(result)[0]), klen(val(result)[1])
+        st.ghost.setdefault("c05_gi_calls", []).append(entry)
+        return out
+
+    return staticmethod(g)
+
+
+def _wait_ens(old, s, a, result):
+    yield "descriptors", klen(result) >= 0
+
+
+@contract(RD + "Screen._wait_for_input_ready", property="C05", assumed=True, replayable=False,
+          notes="TRUSTED: select() on the input descriptors (operating system); assumed to return a fresh list of "
+                "descriptors (empty = the timeout expired with nothing readable), to change nothing and not to raise.")
+class wait_for_input_ready:
+    self_shape = SCREEN_GI
+    params = dict(timeout=Opt(TIME))
+    result = ListOf(Int(0, 1 << 20))
+    ensures = _wait_ens
+    ensures_callee = logged("wait", _wait_ens)
+
+
+def _gari_callee(old, s, a, result):
+    """get_available_raw_input as seen by a caller: the pending codes, then whatever the terminal had."""
+    p = klen(old._partial_codes)
+    yield "pending-codes-come-first", klen(result) >= p  # (lengths only: callers reason about how much is pending, not what)
+    yield "pending-codes-are-handed-over-not-kept", klen(s._partial_codes) == 0
+
+
+get_available_raw_input.ensures_callee = logged("read", _gari_callee)
+
+
+def _pi_callee(old, s, a, result):
+    """parse_input as seen by a caller that passes no callback: (decoded, raw) is returned (clauses of its
+    postcondition that do not speak about the events of its body)."""
+    n = klen(a.old.codes)
+    yield "without-a-callback-the-pair-is-returned", both(is_none(a.callback), neg(is_none(result)))
+    decoded, raw = val(result)
+    part = s._partial_codes
+    r = klen(raw)
+    yield "raw-then-pending-is-the-input-nothing-lost-or-duplicated", r + klen(part) == n  # (lengths only, quantifier-free)
+    yield "a-flush-leaves-nothing-pending", implies(neg(a.wait_for_more), klen(part) == 0)
+    yield "events-exactly-when-input-was-consumed", both(implies(r == 0, klen(decoded) == ite(old._resized, 1, 0)), implies(r > 0, klen(decoded) >= ite(old._resized, 2, 1)))
+    yield "resize-flag-cleared", s._resized == False  # noqa: E712
+
+
+parse_input.result = Opt(Tup(DECODED, CODES))
+# (without a callback the pair is returned: no case split on the result at such a call site)
+parse_input.result_shape = staticmethod(lambda vals: Tup(DECODED, CODES) if vals.get("callback") is None else None)
+parse_input.ensures_callee = logged("parse", _pi_callee)
+
+
+def _same_term(x, y):
+    """Ghost-level: the value passed is syntactically the given field (which of the timeouts was used)."""
+    if x is None or y is None or isinstance(x, SOpt) or isinstance(y, SOpt):
+        return False
+    return str(V._z(x)) == str(V._z(y))
+
+
+def _same_codes(x, y):
+    return both(klen(x) == klen(y), every(0, klen(x), lambda j: kat(x, j) == kat(y, j)))
+
+
+class _GetInput:
+    self_shape = SCREEN_GI
+    params = dict(raw_keys=Bool)
+    raises = (RuntimeError,)
+    modifies = ("_partial_codes", "_resized", "prev_input_resize")
+    abstract_contains = True  # `"window resize" in new_keys` (resize throttling): both answers are explored
+    no_xcheck = "every path of a started screen waits on the operating system (assumed _wait_for_input_ready) and the logger is dropped: no native run from plain fields"
+
+    def ensures(old, s, a, result):
+        calls = cur().ghost.get("c05_gi_calls", [])
+        names = [c["name"] for c in calls]
+        yield "started", old._started
+        # the resize throttling (after the main part) is recognised by its waits: they pass self.resize_wait
+        thr = [i for i, c in enumerate(calls) if c["name"] == "wait" and _same_term(c["a"].timeout, old.resize_wait)]
+        main = calls[: thr[0]] if thr else calls
+        mnames = [c["name"] for c in main]
+        yield "waits-with-the-idle-timeout-then-reads-and-decodes", mnames[:3] == ["wait", "read", "parse"] and bool(eq(main[0]["a"].timeout, old._next_timeout))
+        for i, c in enumerate(calls):
+            if c["name"] == "read":
+                yield f"call{i}-what-was-read-pending-codes-first-is-decoded-at-once-without-loop-or-callback", (
+                    both(_same_codes(calls[i + 1]["a"].old.codes, c["result"]), is_none(calls[i + 1]["a"].event_loop), is_none(calls[i + 1]["a"].callback))
+                    if i + 1 < len(calls) and names[i + 1] == "parse" else False)
+        # THE FLUSH DECISION (main part)
+        pend = main[-1]["pending_after"] if main else 0
+        if mnames == ["wait", "read", "parse"]:
+            yield "pending-codes-are-never-left-without-a-completion-wait", pend == 0
+        elif mnames == ["wait", "read", "parse", "wait"]:
+            yield "pending-codes-are-held-only-when-the-completion-wait-reported-more-input", both(klen(main[3]["result"]) > 0, main[3]["a"].timeout == old.complete_wait)
+        elif mnames == ["wait", "read", "parse", "wait", "read", "parse"]:
+            yield "an-expired-completion-wait-is-followed-by-decoding-the-pending-codes-as-they-stand", both(
+                klen(main[3]["result"]) == 0, main[3]["a"].timeout == old.complete_wait, neg(main[5]["a"].wait_for_more), pend == 0)
+        else:
+            yield "main-part-is-read-decode-optionally-completion-wait-and-flush", False
+        if not thr:
+            keys = result[0] if isinstance(result, tuple) else result
+            parses = [c for c in calls if c["name"] == "parse"]
+            yield "every-decoded-event-is-returned-none-lost", klen(keys) == sum((c["n_decoded"] for c in parses), 0)
+            if isinstance(result, tuple):
+                yield "every-raw-code-is-returned-none-lost", klen(result[1]) == sum((c["n_raw"] for c in parses), 0)
+        else:
+            # (failed on the tree before /repo 3aded5d: resize, silence, resize, ESC 1 ms later - inside the throttling wait -,
+            # silence, 'b' gave ['window resize'], ['window resize'] with ESC left pending, then ['meta b'])
+            yield "resize-throttling-pending-codes-are-held-only-when-a-completion-wait-reported-more-input", implies(
+                klen(s._partial_codes) > 0, both(klen(calls[-1]["result"]) > 0, calls[-1]["a"].timeout == old.complete_wait) if names[-1] == "wait" else False)
+            for i, c in enumerate(calls):
+                if i > thr[-1] and c["name"] == "wait":
+                    yield "resize-throttling-an-expired-completion-wait-is-followed-by-decoding-as-it-stands", (
+                        both(klen(c["result"]) == 0, neg(calls[i + 2]["a"].wait_for_more), calls[i + 2]["pending_after"] == 0) if i + 2 < len(calls) and names[i + 1 : i + 3] == ["read", "parse"]
+                        else klen(c["result"]) > 0)
+
+    def on_raise(old, s, a, exc):
+        yield "only-when-not-started", neg(old._started)
+        yield "nothing-was-read", len(cur().ghost.get("c05_gi_calls", [])) == 0
+
+
+# The body is verified in two instances that together cover every receiver state (the path space of the throttling
+# branch is ~40 times that of the rest): the previous call did not / did return a lone "window resize".
+@contract(RD + "Screen.get_input", property="C05", replayable=False)
+class get_input(_GetInput):
+    self_shape, params, raises, modifies, abstract_contains, no_xcheck = _GetInput.self_shape, _GetInput.params, _GetInput.raises, _GetInput.modifies, True, _GetInput.no_xcheck
+    ensures, on_raise = _GetInput.ensures, _GetInput.on_raise
+
+    def requires(s, a):
+        return s.prev_input_resize == 0
+
+
+@contract(RD + "Screen.get_input", property="C05", replayable=False, alias="after-a-resize")
+class get_input_after_a_resize(_GetInput):
+    self_shape, params, raises, modifies, abstract_contains, no_xcheck = _GetInput.self_shape, _GetInput.params, _GetInput.raises, _GetInput.modifies, True, _GetInput.no_xcheck
+    ensures, on_raise = _GetInput.ensures, _GetInput.on_raise
+
+    def requires(s, a):
+        return s.prev_input_resize >= 1
